@@ -180,6 +180,10 @@ impl<I: Iterator> Iterator for ExhaustOnDrop<I> {
 }
 impl<I: Iterator> Drop for ExhaustOnDrop<I> {
     fn drop(&mut self) {
+        // the old contract's `panic_flag`: nothing more is filtered once the predicate has panicked
+        if std::thread::panicking() {
+            return;
+        }
         for x in self.0.by_ref() {
             drop(x);
         }
@@ -198,6 +202,26 @@ pub fn pred(p: u8, call: usize, val: u8) -> bool {
         1 => false,
         2 => call % 2 == 0,
         3 => call == 0,
+        // predicates that panic at one call (diff mode, Copy elements only: what the vector holds after
+        // the caught panic is compared with std's)
+        7 => {
+            if call == 2 {
+                crate::util::injected_panic()
+            }
+            call % 2 == 0
+        }
+        8 => {
+            if call == 1 {
+                crate::util::injected_panic()
+            }
+            false
+        }
+        9 => {
+            if call == 1 {
+                crate::util::injected_panic()
+            }
+            true
+        }
         _ => val == 1,
     }
 }
